@@ -182,8 +182,9 @@ namespace Givaro
     inline typename Montgomery<RecInt::ruint<K>>::Element& Montgomery<RecInt::ruint<K>>::axpy
     (Element& r, const Element& a, const Element& b, const Element& c) const
     {
-        mul(r, a, b);
-        return addin(r, c);
+        Element ab; // r may be the same object as c
+        mul(ab, a, b);
+        return add(r, ab, c);
     }
 
     template<size_t K>
@@ -199,8 +200,9 @@ namespace Givaro
     inline typename Montgomery<RecInt::ruint<K>>::Element& Montgomery<RecInt::ruint<K>>::maxpy
     (Element& r, const Element& a, const Element& b, const Element& c) const
     {
-        mul(r, a, b);
-        return sub(r, c, r);
+        Element ab; // r may be the same object as c
+        mul(ab, a, b);
+        return sub(r, c, ab);
     }
 
     template<size_t K>
@@ -216,9 +218,9 @@ namespace Givaro
     inline typename Montgomery<RecInt::ruint<K>>::Element&  Montgomery<RecInt::ruint<K>>::axmy
     (Element& r, const Element& a, const Element& b, const Element& c) const
     {
-        mul(r, a, b);
-        subin(r, c);
-        return r;
+        Element ab; // r may be the same object as c
+        mul(ab, a, b);
+        return sub(r, ab, c);
     }
 
     template<size_t K>
